@@ -1,9 +1,10 @@
-(* C03/ProofsResult.v : invariant of the result state machine for histories in which samples()
-   and frequencies() are only ever called on ONE result r0 of the circuit (any number of
-   executions, probabilities() on any result, any accessor order).  Refinement proof: every
-   reachable machine state is the concretisation [conc] of an abstract state consisting of one
-   list of shots [a_sh] for r0 plus flags saying which caches are filled; every output is
-   explained by that list. *)
+(* C03/ProofsResult.v : invariant of the result state machine for ALL histories (any number of
+   executions of the circuit object, samples()/frequencies()/probabilities() on any result in
+   any order).  Refinement proof: the list of result objects of every reachable machine state is
+   the concretisation of a list of abstract entries, one per result, each consisting of that
+   result's own list of shots plus flags saying which of its caches are filled; every output
+   read from a result is explained by its own list.  The caches on the measurement gates are
+   unconstrained: results write them but never read them. *)
 From Coq Require Import List Bool Arith ZArith Lia Permutation.
 From QV Require Import Base.Mat C03.ModelSamples C03.ModelProbs C03.ModelResult
      C03.ProofsSamples C03.ProofsProbs.
@@ -49,9 +50,67 @@ Proof. intros H HF. induction HF; constructor; auto. Qed.
 
 Definition isSome {A} (o : option A) : bool := match o with Some _ => true | None => false end.
 
-Section Single.
+
+Lemma update_nth_map {A B} (f : A -> B) (l : list A) : forall i x,
+  map f (update_nth i x l) = update_nth i (f x) (map f l).
+Proof. induction l as [|y l IH]; intros [|i] x; cbn [update_nth map]; try reflexivity. now rewrite IH. Qed.
+
+Lemma update_nth_same {A} (l : list A) : forall i x, nth_error l i = Some x -> update_nth i x l = l.
+Proof.
+  induction l as [|y l IH]; intros [|i] x H; cbn [nth_error] in H; try discriminate; cbn [update_nth].
+  - now inversion H.
+  - now rewrite IH.
+Qed.
+
+Lemma nth_error_update_eq {A} (l : list A) : forall i x, i < length l -> nth_error (update_nth i x l) i = Some x.
+Proof. induction l as [|y l IH]; intros [|i] x H; cbn [length] in H; try lia; cbn [update_nth nth_error]; [reflexivity|]. apply IH. lia. Qed.
+
+Lemma nth_error_update_neq {A} (l : list A) : forall i j x, i <> j -> nth_error (update_nth i x l) j = nth_error l j.
+Proof.
+  induction l as [|y l IH]; intros [|i] [|j] x H; cbn [update_nth nth_error]; try reflexivity; try congruence.
+  apply IH. congruence.
+Qed.
+
+Lemma Forall_app_one {A} (P : A -> Prop) l x : Forall P l -> P x -> Forall P (l ++ [x]).
+Proof. intros H1 H2. apply Forall_app. split; [assumption | constructor; [assumption | constructor]]. Qed.
+
+Lemma Forall_update_nth {A} (P : A -> Prop) (l : list A) : forall i x, Forall P l -> P x -> Forall P (update_nth i x l).
+Proof.
+  induction l as [|y l IH]; intros [|i] x H Hx; cbn [update_nth]; try assumption; inversion H; subst; constructor; auto.
+Qed.
+
+Lemma nth_error_app_some {A} (l l' : list A) r e : nth_error l r = Some e -> nth_error (l ++ l') r = Some e.
+Proof. intros H. rewrite nth_error_app1; [assumption|]. apply nth_error_Some. congruence. Qed.
+
+Lemma nth_error_combine {A B} (l : list A) : forall (l' : list B) i a b,
+  nth_error l i = Some a -> nth_error l' i = Some b -> In (a, b) (combine l l').
+Proof.
+  induction l as [|x l IH]; intros [|y l'] [|i] a b Ha Hb; cbn [nth_error] in *; try discriminate.
+  - inversion Ha; inversion Hb; subst. now left.
+  - right. eapply IH; eauto.
+Qed.
+
+Lemma forallb_count_all draw l :
+  forallb (fun v => count draw v =? count l v) (draw ++ l) = true -> forall v, cnt draw v = cnt l v.
+Proof.
+  intros H v. rewrite forallb_forall in H.
+  destruct (in_dec Nat.eq_dec v (draw ++ l)) as [Hin|Hnin].
+  - apply Nat.eqb_eq. apply (H v Hin).
+  - unfold cnt. rewrite in_app_iff in Hnin.
+    rewrite (proj1 (count_occ_not_In Nat.eq_dec draw v)) by tauto.
+    rewrite (proj1 (count_occ_not_In Nat.eq_dec l v)) by tauto. reflexivity.
+Qed.
+
+Lemma expand_keys f s : In s (expand f) -> exists c, In (s, c) f.
+Proof.
+  induction f as [|[v c] f IH]; cbn [expand flat_map fst snd]; [intros []|].
+  rewrite in_app_iff. intros [H|H].
+  - apply repeat_spec in H. subst. exists c. now left.
+  - destruct (IH H) as [c' Hc]. exists c'. now right.
+Qed.
+
+Section All.
   Variable cfg : config.
-  Variable r0 : nat.
   Hypothesis Hcfg : cfg_wf cfg.
 
   Notation n := (c_n cfg).
@@ -59,198 +118,53 @@ Section Single.
   Notation Q := (cQ cfg).
   Notation k := (ck cfg).
 
-  Lemma regs_in_Q reg : In reg regs -> incl reg Q.
-  Proof. intros H q Hq. unfold cQ, global_qubits. apply in_concat. eauto. Qed.
+  (* ---------- abstract entry of one result object *)
+  Record aent := mkent { e_w : list Z ; e_ns : nat ; e_smp : bool ; e_sh : list nat ; e_frq : option counter }.
+  Definition conc_ent (a : aent) : result :=
+    mkr (e_w a) (e_ns a) (calc_probs n Q (e_w a))
+        (if e_smp a then Some (map (to_bin k) (e_sh a)) else None) (e_frq a).
+  Definition rel (m : machine) (al : list aent) : Prop := m_results m = map conc_ent al.
 
-  (* ---------- canonical form of the measurement-gate caches *)
-  Definition gcol (reg : list nat) (sh : list nat) : list bits :=
-    map (fun s => take_cols (reg_cols Q reg) (to_bin k s)) sh.
-
-  Fixpoint build (rs : list (list nat)) (samp : bool) (sh : list nat) (gfl : list (option counter))
-    : list gcache :=
-    match rs, gfl with
-    | reg :: rs', gfo :: gfl' =>
-        mkg (if samp then Some (gcol reg sh) else None) gfo :: build rs' samp sh gfl'
-    | _, _ => []
-    end.
-
-  Fixpoint fl_of (rs : list (list nat)) (gfl : list (option counter)) (sh : list nat) : list counter :=
-    match rs, gfl with
-    | reg :: rs', gfo :: gfl' =>
-        (match gfo with Some f => f | None => calc_freq (map to_dec (gcol reg sh)) end) :: fl_of rs' gfl' sh
-    | _, _ => []
-    end.
-
-  Lemma build_false_sh rs sh sh' : forall gfl, build rs false sh gfl = build rs false sh' gfl.
-  Proof. induction rs as [|reg rs IH]; intros [|gfo gfl]; cbn [build]; try reflexivity. now rewrite IH. Qed.
-
-  Lemma g0_build samp sh gfl rs fin :
-    regs <> [] -> length gfl = length regs ->
-    g0_has_samples (mkm (build regs samp sh gfl) rs fin) = samp.
-  Proof.
-    intros Hne Hlen. unfold g0_has_samples. cbn [m_gates].
-    destruct regs as [|reg rs']; [congruence|]. destruct gfl as [|gfo gfl]; [discriminate|].
-    cbn [build gs]. now destruct samp.
-  Qed.
-
-  Lemma all_gs_build_true rs sh : forall gfl, length gfl = length rs ->
-    all_gs (build rs true sh gfl) = Some (map (fun reg => gcol reg sh) rs).
-  Proof.
-    induction rs as [|reg rs IH]; intros [|gfo gfl] Hlen; cbn [length] in Hlen; try discriminate; [reflexivity|].
-    cbn [build]. unfold all_gs in *. cbn [fold_right gs map]. rewrite IH by lia. reflexivity.
-  Qed.
-
-  Lemma materialise_gates rs samp sh draw : forall gfl, length gfl = length rs ->
-    map (fun rg => mkg (Some (map (take_cols (reg_cols Q (fst rg))) (map (to_bin k) draw))) (gf (snd rg)))
-        (combine rs (build rs samp sh gfl)) = build rs true draw gfl.
-  Proof.
-    induction rs as [|reg rs IH]; intros [|gfo gfl] Hlen; cbn [length] in Hlen; try discriminate; [reflexivity|].
-    cbn [build combine map fst snd gf]. rewrite IH by lia. f_equal.
-    unfold gcol. now rewrite map_map.
-  Qed.
-
-  Lemma freq_gates rs sh sh' fdraw : forall gfl, length gfl = length rs ->
-    map (fun rg => mkg (gs (snd rg)) (Some (reg_freq k (reg_cols Q (fst rg)) fdraw)))
-        (combine rs (build rs false sh gfl))
-    = build rs false sh' (map (fun reg => Some (reg_freq k (reg_cols Q reg) fdraw)) rs).
-  Proof.
-    induction rs as [|reg rs IH]; intros [|gfo gfl] Hlen; cbn [length] in Hlen; try discriminate; [reflexivity|].
-    cbn [build combine map fst snd gs]. now rewrite IH by lia.
-  Qed.
-
-  Lemma fl_of_length rs sh : forall gfl, length gfl = length rs -> length (fl_of rs gfl sh) = length rs.
-  Proof.
-    induction rs as [|reg rs IH]; intros [|gfo gfl] Hlen; cbn [length] in Hlen; try discriminate; [reflexivity|].
-    cbn [fl_of length]. now rewrite IH by lia.
-  Qed.
-
-  Lemma build_length rs samp sh : forall gfl, length gfl = length rs -> length (build rs samp sh gfl) = length rs.
-  Proof.
-    induction rs as [|reg rs IH]; intros [|gfo gfl] Hlen; cbn [length] in Hlen; try discriminate; [reflexivity|].
-    cbn [build length]. now rewrite IH by lia.
-  Qed.
-
-  Lemma gate_freq_build rs samp sh : forall gfl, length gfl = length rs ->
-    (samp = true \/ Forall (fun gfo => isSome gfo = true) gfl) ->
-    opt_all (map gate_freq (build rs samp sh gfl))
-    = Some (combine (build rs samp sh (map Some (fl_of rs gfl sh))) (fl_of rs gfl sh)).
-  Proof.
-    induction rs as [|reg rs IH]; intros [|gfo gfl] Hlen Hc; cbn [length] in Hlen; try discriminate; [reflexivity|].
-    cbn [build map fl_of combine]. unfold opt_all in *. cbn [fold_right].
-    rewrite IH; [|lia|].
-    - destruct gfo as [f|]; unfold gate_freq; cbn [gf gs]; [reflexivity|].
-      destruct samp; [reflexivity|].
-      destruct Hc as [Hc|Hc]; [discriminate|]. inversion Hc as [|? ? Hh Ht]; subst. discriminate.
-    - destruct Hc as [Hc|Hc]; [now left | right]. now inversion Hc.
-  Qed.
-
-  Lemma map_fst_combine {A B} (a : list A) : forall (b : list B), length a = length b -> map fst (combine a b) = a.
-  Proof. induction a as [|x a IH]; intros [|y b] H; cbn in *; try discriminate; [reflexivity|]. f_equal. apply IH. lia. Qed.
-  Lemma map_snd_combine {A B} (a : list A) : forall (b : list B), length a = length b -> map snd (combine a b) = b.
-  Proof. induction a as [|x a IH]; intros [|y b] H; cbn in *; try discriminate; [reflexivity|]. f_equal. apply IH. lia. Qed.
-
-  (* ---------- canonical form of the result objects *)
-  Definition mkres (smp : option (list bits)) (frq : option counter) (r : nat) (e : list Z * nat) : result :=
-    mkr (fst e) (snd e) (calc_probs n Q (fst e))
-        (if r =? r0 then smp else None) (if r =? r0 then frq else None).
-  Fixpoint mk_results_from (i : nat) smp frq (es : list (list Z * nat)) : list result :=
-    match es with [] => [] | e :: es' => mkres smp frq i e :: mk_results_from (S i) smp frq es' end.
-
-  Lemma mk_results_nth smp frq es : forall i r,
-    nth_error (mk_results_from i smp frq es) r = option_map (mkres smp frq (i + r)) (nth_error es r).
-  Proof.
-    induction es as [|e es IH]; intros i [|r]; cbn [mk_results_from nth_error option_map]; try reflexivity.
-    - now rewrite Nat.add_0_r.
-    - rewrite IH. now replace (S i + r) with (i + S r) by lia.
-  Qed.
-
-  Lemma mk_results_length smp frq es : forall i, length (mk_results_from i smp frq es) = length es.
-  Proof. induction es as [|e es IH]; intros i; cbn [mk_results_from length]; auto. Qed.
-
-  Lemma mk_results_irrelevant smp frq smp' frq' es : forall i, r0 < i ->
-    mk_results_from i smp frq es = mk_results_from i smp' frq' es.
-  Proof.
-    induction es as [|e es IH]; intros i Hi; cbn [mk_results_from]; [reflexivity|].
-    rewrite (IH (S i)) by lia. f_equal. unfold mkres.
-    assert (i =? r0 = false) as -> by (apply Nat.eqb_neq; lia). reflexivity.
-  Qed.
-
-  Lemma mk_results_update smp frq smp' frq' es : forall i r e,
-    i + r = r0 -> nth_error es r = Some e ->
-    update_nth r (mkres smp' frq' r0 e) (mk_results_from i smp frq es) = mk_results_from i smp' frq' es.
-  Proof.
-    induction es as [|e0 es IH]; intros i [|r] e Hir He; cbn [nth_error] in He; try discriminate.
-    - inversion He; subst e0. cbn [mk_results_from update_nth]. rewrite Nat.add_0_r in Hir. subst i.
-      f_equal. apply mk_results_irrelevant. lia.
-    - cbn [mk_results_from update_nth]. rewrite (IH (S i) r e) by (assumption || lia). f_equal.
-      unfold mkres. assert (i =? r0 = false) as -> by (apply Nat.eqb_neq; lia). reflexivity.
-  Qed.
-
-  Lemma mk_results_app smp frq es e : forall i,
-    mk_results_from i smp frq (es ++ [e]) = mk_results_from i smp frq es ++ [mkres smp frq (i + length es) e].
-  Proof.
-    induction es as [|e0 es IH]; intros i; cbn [app mk_results_from length].
-    - now rewrite Nat.add_0_r.
-    - rewrite IH. now replace (S i + length es) with (i + S (length es)) by lia.
-  Qed.
-
-  (* ---------- abstract state *)
-  Record ast := mka { a_execs : list (list Z * nat); a_smp : bool; a_sh : list nat;
-                      a_frq : option counter; a_gfl : list (option counter); a_fin : option nat }.
-  Definition smp_of (st : ast) : option (list bits) :=
-    if a_smp st then Some (map (to_bin k) (a_sh st)) else None.
-  Definition conc (st : ast) : machine :=
-    mkm (build regs (a_smp st) (a_sh st) (a_gfl st))
-        (mk_results_from 0 (smp_of st) (a_frq st) (a_execs st)) (a_fin st).
-
-  Definition gf_ok (sh : list nat) (reg : list nat) (gfo : option counter) : Prop :=
-    match gfo with None => True | Some f => counts_ok f (map (spec_reg_dec cfg reg) sh) end.
-
-  Record wf (st : ast) : Prop := mkwf {
-    wf_len : length (a_gfl st) = length regs;
-    wf_gf : Forall2 (gf_ok (a_sh st)) regs (a_gfl st);
-    wf_frq : match a_frq st with Some F => counts_ok F (a_sh st) | None => True end;
-    wf_nosamp : a_smp st = false -> Forall (fun gfo => isSome gfo = isSome (a_frq st)) (a_gfl st);
-    wf_active : a_smp st = true \/ isSome (a_frq st) = true ->
-                exists e, nth_error (a_execs st) r0 = Some e /\ shots_ok cfg (fst e) (snd e) (a_sh st)
+  Record wfe (a : aent) : Prop := mkwfe {
+    wfe_frq : match e_frq a with Some F => counts_ok F (e_sh a) | None => True end;
+    wfe_active : e_smp a = true \/ isSome (e_frq a) = true -> shots_ok cfg (e_w a) (e_ns a) (e_sh a)
   }.
 
-  Definition item_ok (st : ast) (p : op * out) : Prop :=
+  Definition item_ok (al : list aent) (p : op * out) : Prop :=
     match target (fst p) with
     | None => True
-    | Some r => match nth_error (a_execs st) r with
-                | Some e => explains cfg (fst e) (if r =? r0 then a_sh st else []) (fst p) (snd p)
+    | Some r => match nth_error al r with
+                | Some a => explains cfg (e_w a) (e_sh a) (fst p) (snd p)
                 | None => False
                 end
     end.
   Definition no_samples_item (p : op * out) : Prop :=
     match fst p with Samples _ _ _ _ => False | _ => True end.
+  Definition on (r : nat) (p : op * out) : Prop := target (fst p) = Some r.
 
-  Definition INV (st : ast) (past : list (op * out)) : Prop :=
-    wf st /\ Forall (item_ok st) past /\
-    (a_smp st = false -> Forall no_samples_item past) /\
-    (a_smp st = false -> a_frq st = None -> Forall (fun p => needs_shots (fst p) = false) past).
+  Definition INV (al : list aent) (past : list (op * out)) : Prop :=
+    Forall wfe al /\ Forall (item_ok al) past /\
+    (forall r a, nth_error al r = Some a -> e_smp a = false ->
+                 Forall (fun p => on r p -> no_samples_item p) past) /\
+    (forall r a, nth_error al r = Some a -> e_smp a = false -> e_frq a = None ->
+                 Forall (fun p => on r p -> needs_shots (fst p) = false) past).
 
-  Definition reader_ok (o : op) : bool :=
-    match o with Samples r _ _ _ => r =? r0 | Freqs r _ _ _ => r =? r0 | _ => true end.
+  (* ---------- facts about the views *)
+  Lemma probs_born w : calc_probs n Q w = born_vec n Q w.
+  Proof. destruct Hcfg as [_ [Hnd Hlt]]. now apply probs_sv_correct. Qed.
 
-  (* ---------- the spec side of the register columns *)
-  Lemma gcol_spec reg sh : In reg regs -> gcol reg sh = map (spec_reg_row cfg reg) sh.
-  Proof.
-    intros Hin. unfold gcol, spec_reg_row. apply map_ext. intros s.
-    destruct Hcfg as [_ [Hnd _]].
-    rewrite reg_cols_index_of by (auto using regs_in_Q). unfold take_cols. now rewrite map_map.
-  Qed.
+  Lemma own_row reg s : take_cols (own_cols cfg reg) (to_bin k s) = spec_reg_row cfg reg s.
+  Proof. unfold take_cols, own_cols, spec_reg_row. now rewrite map_map. Qed.
 
-  Lemma gcol_dec_spec reg sh : In reg regs -> map to_dec (gcol reg sh) = map (spec_reg_dec cfg reg) sh.
-  Proof. intros Hin. rewrite gcol_spec by assumption. now rewrite map_map. Qed.
+  Lemma own_rows sh :
+    map (fun reg => map (take_cols (own_cols cfg reg)) (map (to_bin k) sh)) regs
+    = map (fun reg => map (spec_reg_row cfg reg) sh) regs.
+  Proof. apply map_ext. intros reg. rewrite map_map. apply map_ext. intros s. apply own_row. Qed.
 
-  Lemma map_gcol_spec sh : map (fun reg => gcol reg sh) regs = map (fun reg => map (spec_reg_row cfg reg) sh) regs.
-  Proof. apply map_ext_in. intros reg Hin. now apply gcol_spec. Qed.
-
-  Lemma map_gcol_dec_spec sh :
-    map (map to_dec) (map (fun reg => gcol reg sh) regs) = map (fun reg => map (spec_reg_dec cfg reg) sh) regs.
-  Proof. rewrite map_map. apply map_ext_in. intros reg Hin. now apply gcol_dec_spec. Qed.
+  Lemma own_rows_dec sh :
+    map (map to_dec) (map (fun reg => map (take_cols (own_cols cfg reg)) (map (to_bin k) sh)) regs)
+    = map (fun reg => map (spec_reg_dec cfg reg) sh) regs.
+  Proof. rewrite own_rows, map_map. apply map_ext. intros reg. now rewrite map_map. Qed.
 
   Lemma dec_bin_shots (w : list Z) ns sh : shots_ok cfg w ns sh -> map to_dec (map (to_bin k) sh) = sh.
   Proof.
@@ -258,96 +172,21 @@ Section Single.
     rewrite Forall_forall in HF. destruct (HF s Hs) as [Hlt _]. now apply bin_dec_inverse_l.
   Qed.
 
-  Lemma probs_born w : calc_probs n Q w = born_vec n Q w.
-  Proof. destruct Hcfg as [_ [Hnd Hlt]]. now apply probs_sv_correct. Qed.
-
-  (* ---------- explained items survive the transitions *)
-  Lemma explains_perm w sh sh' o x :
-    (forall v, cnt sh v = cnt sh' v) -> no_samples_item (o, x) ->
-    explains cfg w sh o x -> explains cfg w sh' o x.
+  Lemma own_freq_ok reg F sh :
+    counts_ok F sh -> counts_ok (reg_freq k (own_cols cfg reg) F) (map (spec_reg_dec cfg reg) sh).
   Proof.
-    intros Hp Hns. destruct o as [w' ns|r b rg d|r b rg fd|r qs|]; cbn [no_samples_item fst] in Hns; try contradiction;
-      try (intros H; exact H).
-    - (* Freqs *)
-      destruct b, rg; destruct x; cbn [explains]; try (intros H; exact H).
-      + intros H. eapply Forall2_impl'; [|exact H]. intros reg fb [f0 [E C]]. exists f0. split; [assumption|].
-        eapply counts_ok_perm; [|exact C]. now apply cnt_map_perm.
-      + intros [f0 [E C]]. exists f0. split; [assumption|]. eapply counts_ok_perm; eauto.
-      + intros H. eapply Forall2_impl'; [|exact H]. intros reg f0 C.
-        eapply counts_ok_perm; [|exact C]. now apply cnt_map_perm.
-      + intros C. eapply counts_ok_perm; eauto.
+    intros [Hnd Hl]. split; [apply nodup_reg_freq|]. intros u. rewrite lookup_reg_freq.
+    assert (E : map (fun s => to_dec (take_cols (own_cols cfg reg) (to_bin k s))) (expand F)
+                = map (spec_reg_dec cfg reg) (expand F)).
+    { apply map_ext. intros s. unfold spec_reg_dec. now rewrite own_row. }
+    rewrite E. apply cnt_map_perm. intros v. rewrite (cnt_expand F v Hnd). apply Hl.
   Qed.
 
-  Lemma explains_nosh w sh sh' o x :
-    needs_shots o = false -> explains cfg w sh o x -> explains cfg w sh' o x.
-  Proof. destruct o; cbn [needs_shots]; try discriminate; auto. Qed.
-
-  Lemma item_ok_mono st st' p :
-    (forall r e, nth_error (a_execs st) r = Some e -> nth_error (a_execs st') r = Some e) ->
-    (a_sh st' = a_sh st \/ ((forall v, cnt (a_sh st) v = cnt (a_sh st') v) /\ no_samples_item p)
-     \/ needs_shots (fst p) = false) ->
-    item_ok st p -> item_ok st' p.
-  Proof.
-    intros Hex Hsh. unfold item_ok. destruct (target (fst p)) as [r|]; [|auto].
-    destruct (nth_error (a_execs st) r) as [e|] eqn:E; [|contradiction].
-    rewrite (Hex r e E). destruct Hsh as [->|[[Hp Hns]|Hn]]; [auto| |].
-    - destruct (r =? r0); [|auto]. destruct p as [o x]. now apply explains_perm.
-    - destruct (r =? r0); [|auto]. now apply explains_nosh.
-  Qed.
-
-  (* ---------- auxiliary facts for the step lemma *)
-  Lemma forallb_count_all draw l :
-    forallb (fun v => count draw v =? count l v) (draw ++ l) = true -> forall v, cnt draw v = cnt l v.
-  Proof.
-    intros H v. rewrite forallb_forall in H.
-    destruct (in_dec Nat.eq_dec v (draw ++ l)) as [Hin|Hnin].
-    - apply Nat.eqb_eq. apply (H v Hin).
-    - unfold cnt. rewrite in_app_iff in Hnin.
-      rewrite (proj1 (count_occ_not_In Nat.eq_dec draw v)) by tauto.
-      rewrite (proj1 (count_occ_not_In Nat.eq_dec l v)) by tauto. reflexivity.
-  Qed.
-
-  Lemma in_support_spec probs s :
-    in_support k probs s = true -> s < 2 ^ k /\ nth s probs 0%Z <> 0%Z.
-  Proof.
-    unfold in_support. rewrite andb_true_iff, negb_true_iff, Nat.ltb_lt, Z.eqb_neq. tauto.
-  Qed.
-
-  Lemma col_spec reg s : In reg regs -> take_cols (reg_cols Q reg) (to_bin k s) = spec_reg_row cfg reg s.
-  Proof.
-    intros Hin. pose proof (gcol_spec reg [s] Hin) as H. unfold gcol in H. cbn [map] in H. now inversion H.
-  Qed.
-
-  Lemma gf_ok_none sh : forall rs gfl, length gfl = length rs ->
-    Forall (fun gfo : option counter => isSome gfo = false) gfl -> Forall2 (gf_ok sh) rs gfl.
-  Proof.
-    induction rs as [|reg rs IH]; intros [|gfo gfl] Hlen HF; cbn [length] in Hlen; try discriminate; constructor.
-    - inversion HF; subst. destruct gfo; [discriminate | exact I].
-    - apply IH; [lia | now inversion HF].
-  Qed.
-
-  Lemma gf_ok_perm sh sh' rs gfl :
-    (forall v, cnt sh v = cnt sh' v) -> Forall2 (gf_ok sh) rs gfl -> Forall2 (gf_ok sh') rs gfl.
-  Proof.
-    intros Hp. apply Forall2_impl'. intros reg [f|]; cbn [gf_ok]; [|auto].
-    apply counts_ok_perm. now apply cnt_map_perm.
-  Qed.
-
-  Lemma fl_ok sh : forall rs gfl, (forall reg, In reg rs -> In reg regs) ->
-    Forall2 (gf_ok sh) rs gfl ->
-    Forall2 (fun reg f => counts_ok f (map (spec_reg_dec cfg reg) sh)) rs (fl_of rs gfl sh).
-  Proof.
-    intros rs gfl Hin HF. induction HF as [|reg gfo rs gfl Hh Ht IH]; cbn [fl_of]; constructor.
-    - destruct gfo as [f|]; [exact Hh|].
-      rewrite gcol_dec_spec by (apply Hin; now left).
-      split; [apply nodup_calc_freq | intros v; apply lookup_calc_freq].
-    - apply IH. intros reg' H. apply Hin. now right.
-  Qed.
-
-  Lemma fl_ok_some sh rs fl :
-    Forall2 (fun reg f => counts_ok f (map (spec_reg_dec cfg reg) sh)) rs fl ->
-    Forall2 (gf_ok sh) rs (map Some fl).
-  Proof. intros HF. induction HF; cbn [map]; constructor; auto. Qed.
+  Lemma own_freqs_ok F sh :
+    counts_ok F sh ->
+    Forall2 (fun reg f => counts_ok f (map (spec_reg_dec cfg reg) sh)) regs
+            (map (fun reg => reg_freq k (own_cols cfg reg) F) regs).
+  Proof. intros H. induction regs as [|reg rs IH]; cbn [map]; constructor; [now apply own_freq_ok | exact IH]. Qed.
 
   Lemma fl_bin_ok sh rs fl :
     Forall2 (fun reg f => counts_ok f (map (spec_reg_dec cfg reg) sh)) rs fl ->
@@ -355,74 +194,9 @@ Section Single.
             rs (map (fun rf => fbin (length (fst rf)) (snd rf)) (combine rs fl)).
   Proof. intros HF. induction HF; cbn [combine map fst snd]; constructor; eauto. Qed.
 
-  Lemma reg_freq_ok fdraw : forall rs, (forall reg, In reg rs -> In reg regs) ->
-    Forall2 (gf_ok (expand fdraw)) rs (map (fun reg => Some (reg_freq k (reg_cols Q reg) fdraw)) rs).
-  Proof.
-    induction rs as [|reg rs IH]; intros Hin; cbn [map]; constructor.
-    - cbn [gf_ok]. split; [apply nodup_reg_freq|]. intros v. rewrite lookup_reg_freq.
-      assert (E : map (fun s => to_dec (take_cols (reg_cols Q reg) (to_bin k s))) (expand fdraw)
-                  = map (spec_reg_dec cfg reg) (expand fdraw)).
-      { apply map_ext. intros s. unfold spec_reg_dec. rewrite col_spec by (apply Hin; now left). reflexivity. }
-      rewrite E. reflexivity.
-    - apply IH. intros reg' H. apply Hin. now right.
-  Qed.
-
-  Lemma nth_error_app_some {A} (l l' : list A) r e : nth_error l r = Some e -> nth_error (l ++ l') r = Some e.
-  Proof. intros H. rewrite nth_error_app1; [assumption|]. apply nth_error_Some. congruence. Qed.
-
-  (* ---------- the output of samples() once the shots are materialised *)
-  Lemma result_r0 st e :
-    nth_error (a_execs st) r0 = Some e ->
-    nth_error (m_results (conc st)) r0 = Some (mkres (smp_of st) (a_frq st) r0 e).
-  Proof. intros He. cbn [conc m_results]. rewrite mk_results_nth, He. reflexivity. Qed.
-
-  Lemma mkres_samples smp frq e : r_samples (mkres smp frq r0 e) = smp.
-  Proof. unfold mkres. cbn [r_samples]. now rewrite Nat.eqb_refl. Qed.
-  Lemma mkres_freqs smp frq e : r_freqs (mkres smp frq r0 e) = frq.
-  Proof. unfold mkres. cbn [r_freqs]. now rewrite Nat.eqb_refl. Qed.
-
-  Lemma mat_idem st e d :
-    a_smp st = true -> nth_error (a_execs st) r0 = Some e ->
-    materialise cfg (conc st) r0 d = Some (conc st).
-  Proof.
-    intros Hs He. unfold materialise. rewrite (result_r0 st e He), mkres_samples.
-    unfold smp_of. now rewrite Hs.
-  Qed.
-
-  Lemma step_samples_mat m m1 r b rg d d' :
-    materialise cfg m r d = Some m1 -> materialise cfg m1 r d' = Some m1 ->
-    step_samples cfg m r b rg d = step_samples cfg m1 r b rg d'.
-  Proof. intros H1 H2. unfold step_samples. now rewrite H1, H2. Qed.
-
-  Lemma samples_output st e (b rg : bool) d :
-    wf st -> a_smp st = true -> nth_error (a_execs st) r0 = Some e ->
-    exists x, step_samples cfg (conc st) r0 b rg d = (conc st, x) /\
-              explains cfg (fst e) (a_sh st) (Samples r0 b rg d) x.
-  Proof.
-    intros Hwf Hs He. destruct Hwf as [Hlen _ _ _ Hact].
-    destruct (Hact (or_introl Hs)) as [e' [He' Hshots]]. rewrite He in He'. inversion He'; subst e'.
-    unfold step_samples. rewrite (mat_idem st e d Hs He), (result_r0 st e He), mkres_samples.
-    unfold smp_of. rewrite Hs.
-    destruct rg.
-    - cbn [conc m_gates]. rewrite Hs. rewrite all_gs_build_true by assumption.
-      destruct b; eexists; (split; [reflexivity|]); cbn [explains].
-      + apply map_gcol_spec.
-      + apply map_gcol_dec_spec.
-    - destruct b; eexists; (split; [reflexivity|]); cbn [explains]; [reflexivity|].
-      eapply dec_bin_shots; eauto.
-  Qed.
-
-  Lemma set_samples_mkres smp frq e sm : set_samples (mkres smp frq r0 e) sm = mkres (Some sm) frq r0 e.
-  Proof. unfold set_samples, mkres. cbn [r_w r_nshots r_probs r_freqs]. now rewrite Nat.eqb_refl. Qed.
-  Lemma set_freqs_mkres smp frq e F : set_freqs (mkres smp frq r0 e) F = mkres smp (Some F) r0 e.
-  Proof. unfold set_freqs, mkres. cbn [r_w r_nshots r_probs r_samples]. now rewrite Nat.eqb_refl. Qed.
-  Lemma mkres_probs smp frq r e : r_probs (mkres smp frq r e) = calc_probs n Q (fst e).
-  Proof. reflexivity. Qed.
-  Lemma mkres_nshots smp frq r e : r_nshots (mkres smp frq r e) = snd e.
-  Proof. reflexivity. Qed.
-
-  Lemma Forall_app_one {A} (P : A -> Prop) l x : Forall P l -> P x -> Forall P (l ++ [x]).
-  Proof. intros H1 H2. apply Forall_app. split; [assumption | constructor; [assumption | constructor]]. Qed.
+  Lemma in_support_spec probs s :
+    in_support k probs s = true -> s < 2 ^ k /\ nth s probs 0%Z <> 0%Z.
+  Proof. unfold in_support. rewrite andb_true_iff, negb_true_iff, Nat.ltb_lt, Z.eqb_neq. tauto. Qed.
 
   Lemma support_shots w ns d :
     length d = ns -> forallb (in_support k (calc_probs n Q w)) d = true -> shots_ok cfg w ns d.
@@ -432,423 +206,357 @@ Section Single.
     now rewrite <- probs_born.
   Qed.
 
-  Lemma g0_conc st : length (a_gfl st) = length regs -> g0_has_samples (conc st) = a_smp st.
-  Proof. intros H. unfold conc. apply g0_build; [apply Hcfg | exact H]. Qed.
-
-  Lemma step_samples_inv st past (b rg : bool) d :
-    INV st past -> r0 < length (a_execs st) ->
-    oracle_ok cfg (conc st) (Samples r0 b rg d) = true ->
-    exists st' x, step_samples cfg (conc st) r0 b rg d = (conc st', x) /\
-                  INV st' (past ++ [(Samples r0 b rg d, x)]) /\ a_execs st' = a_execs st.
+  (* ---------- explained items survive the transitions *)
+  Lemma explains_perm w sh sh' o x :
+    (forall v, cnt sh v = cnt sh' v) -> no_samples_item (o, x) ->
+    explains cfg w sh o x -> explains cfg w sh' o x.
   Proof.
-    intros [Hwf [Hitems [Hns Hnn]]] Hr Hor.
-    destruct (nth_error (a_execs st) r0) as [e|] eqn:He; [|apply nth_error_None in He; lia].
-    destruct (a_smp st) eqn:Hs.
-    - (* shots already materialised *)
-      destruct (samples_output st e b rg d Hwf Hs He) as [x [Hx Hex]].
-      exists st, x. split; [exact Hx|]. split; [|reflexivity].
-      split; [exact Hwf|]. split; [|split; intros; congruence].
-      apply Forall_app_one; [exact Hitems|].
-      unfold item_ok. cbn [fst snd target]. rewrite He, Nat.eqb_refl. exact Hex.
-    - (* first materialisation: the drawn values become the shots *)
-      pose proof Hwf as [Hlen Hgf Hfrq Hnosamp Hact].
-      destruct Hcfg as [Hne [HndQ HltQ]].
-      set (st' := mka (a_execs st) true d (a_frq st) (a_gfl st) (a_fin st)).
-      assert (Hmat : materialise cfg (conc st) r0 d = Some (conc st')).
-      { unfold materialise. rewrite (result_r0 st e He), mkres_samples. unfold smp_of at 1. rewrite Hs.
-        rewrite g0_conc by assumption. rewrite Hs.
-        cbn [conc m_gates m_results m_final]. rewrite materialise_gates by assumption.
-        unfold smp_of. rewrite Hs. rewrite set_samples_mkres.
-        rewrite (mk_results_update _ _ (Some (map (to_bin k) d)) (a_frq st) _ 0 r0 e) by (reflexivity || assumption).
-        reflexivity. }
-      assert (He' : nth_error (a_execs st') r0 = Some e) by exact He.
-      assert (Hs' : a_smp st' = true) by reflexivity.
-      (* the new abstract state is well formed *)
-      unfold oracle_ok in Hor. rewrite (result_r0 st e He), mkres_samples in Hor.
-      unfold smp_of in Hor. rewrite Hs in Hor.
-      rewrite g0_conc in Hor by assumption. rewrite Hs in Hor.
-      rewrite mkres_freqs, mkres_probs, mkres_nshots in Hor.
-      assert (Hwf' : wf st' /\ Forall (item_ok st') past).
-      { destruct (a_frq st) as [F|] eqn:Hf.
-        - (* shuffle of the expansion of the frequencies *)
-          pose proof (forallb_count_all _ _ Hor) as Hp.
-          destruct Hfrq as [HndF HlF].
-          assert (Hperm : forall v, cnt (a_sh st) v = cnt d v).
+    intros Hp Hns. destruct o as [w' ns|r b rg d|r b rg fd|r qs|]; cbn [no_samples_item fst] in Hns; try contradiction;
+      try (intros H; exact H).
+    destruct b, rg; destruct x; cbn [explains]; try (intros H; exact H).
+    + intros H. eapply Forall2_impl'; [|exact H]. intros reg fb [f0 [E C]]. exists f0. split; [assumption|].
+      eapply counts_ok_perm; [|exact C]. now apply cnt_map_perm.
+    + intros [f0 [E C]]. exists f0. split; [assumption|]. eapply counts_ok_perm; eauto.
+    + intros H. eapply Forall2_impl'; [|exact H]. intros reg f0 C.
+      eapply counts_ok_perm; [|exact C]. now apply cnt_map_perm.
+    + intros C. eapply counts_ok_perm; eauto.
+  Qed.
+
+  Lemma explains_nosh w sh sh' o x :
+    needs_shots o = false -> explains cfg w sh o x -> explains cfg w sh' o x.
+  Proof. destruct o; cbn [needs_shots]; try discriminate; auto. Qed.
+
+  (* replacing the entry of result r0 by one with the same state and compatible shots *)
+  Lemma item_ok_update al r0 a a' p :
+    nth_error al r0 = Some a -> e_w a' = e_w a ->
+    (e_sh a' = e_sh a \/ ((forall v, cnt (e_sh a) v = cnt (e_sh a') v) /\ (on r0 p -> no_samples_item p))
+     \/ (on r0 p -> needs_shots (fst p) = false)) ->
+    item_ok al p -> item_ok (update_nth r0 a' al) p.
+  Proof.
+    intros Ha Hw Hsh. unfold item_ok. destruct (target (fst p)) as [r|] eqn:Et; [|auto].
+    destruct (Nat.eq_dec r0 r) as [<-|Hne].
+    - rewrite Ha, nth_error_update_eq by (apply nth_error_Some; congruence). rewrite Hw.
+      destruct Hsh as [->|[[Hp Hns]|Hn]]; [auto| |].
+      + destruct p as [o x]. apply explains_perm; [exact Hp | now apply Hns].
+      + apply explains_nosh. now apply Hn.
+    - now rewrite nth_error_update_neq by exact Hne.
+  Qed.
+
+  Lemma rel_nth m al r a : rel m al -> nth_error al r = Some a -> nth_error (m_results m) r = Some (conc_ent a).
+  Proof. intros H Ha. rewrite H. now rewrite nth_error_map, Ha. Qed.
+
+  Lemma INV_update al past r0 a a' :
+    INV al past -> nth_error al r0 = Some a -> e_w a' = e_w a -> wfe a' ->
+    (e_sh a' = e_sh a
+     \/ ((forall v, cnt (e_sh a) v = cnt (e_sh a') v) /\ e_smp a = false)
+     \/ (e_smp a = false /\ e_frq a = None)) ->
+    (e_smp a' = false -> e_smp a = false) ->
+    (e_smp a' = false -> e_frq a' = None -> e_frq a = None) ->
+    INV (update_nth r0 a' al) past.
+  Proof.
+    intros [Hwf [Hit [Hf1 Hf2]]] Ha Hw Hwf' Hsh Hs1 Hs2.
+    assert (Hr0 : r0 < length al) by (apply nth_error_Some; congruence).
+    split; [now apply Forall_update_nth|]. split; [|split].
+    - rewrite Forall_forall in *. intros p Hp. apply (item_ok_update al r0 a a' p Ha Hw); [|now apply Hit].
+      destruct Hsh as [H|[[Hc Hs]|[Hs Hf]]]; [now left | right; left | right; right].
+      + split; [exact Hc|]. specialize (Hf1 r0 a Ha Hs). rewrite Forall_forall in Hf1. now apply Hf1.
+      + specialize (Hf2 r0 a Ha Hs Hf). rewrite Forall_forall in Hf2. now apply Hf2.
+    - intros r b Hb Hsb. destruct (Nat.eq_dec r0 r) as [<-|Hne].
+      + rewrite nth_error_update_eq in Hb by exact Hr0. inversion Hb; subst b. apply (Hf1 r0 a Ha). now apply Hs1.
+      + rewrite nth_error_update_neq in Hb by exact Hne. now apply (Hf1 r b).
+    - intros r b Hb Hsb Hfb. destruct (Nat.eq_dec r0 r) as [<-|Hne].
+      + rewrite nth_error_update_eq in Hb by exact Hr0. inversion Hb; subst b.
+        apply (Hf2 r0 a Ha); [now apply Hs1 | now apply Hs2].
+      + rewrite nth_error_update_neq in Hb by exact Hne. now apply (Hf2 r b).
+  Qed.
+
+  Lemma INV_snoc al past o x :
+    INV al past -> item_ok al (o, x) ->
+    (forall r a, target o = Some r -> nth_error al r = Some a -> e_smp a = false -> no_samples_item (o, x)) ->
+    (forall r a, target o = Some r -> nth_error al r = Some a -> e_smp a = false -> e_frq a = None -> needs_shots o = false) ->
+    INV al (past ++ [(o, x)]).
+  Proof.
+    intros [Hwf [Hit [Hf1 Hf2]]] Hi H1 H2. split; [exact Hwf|]. split; [now apply Forall_app_one|]. split.
+    - intros r a Ha Hs. apply Forall_app_one; [now apply (Hf1 r a)|]. intros Hon. now apply (H1 r a).
+    - intros r a Ha Hs Hf. apply Forall_app_one; [now apply (Hf2 r a)|]. intros Hon. now apply (H2 r a).
+  Qed.
+
+  Lemma rel_update m al r a' gates fin :
+    rel m al ->
+    rel (mkm gates (update_nth r (conc_ent a') (m_results m)) fin) (update_nth r a' al).
+  Proof. unfold rel. intros H. cbn [m_results]. now rewrite H, update_nth_map. Qed.
+
+  (* ---------- samples() *)
+  Lemma samples_tail al r a (b rg : bool) m d :
+    rel m al -> nth_error al r = Some a -> e_smp a = true -> wfe a ->
+    exists x, step_samples cfg m r b rg d = (m, x) /\ explains cfg (e_w a) (e_sh a) (Samples r b rg d) x.
+  Proof.
+    intros Hrel Ha Hs [_ Hact]. pose proof (Hact (or_introl Hs)) as Hshots.
+    unfold step_samples, materialise. rewrite (rel_nth m al r a Hrel Ha).
+    unfold conc_ent at 1. cbn [r_samples]. rewrite Hs.
+    rewrite (rel_nth m al r a Hrel Ha). unfold conc_ent. cbn [r_samples]. rewrite Hs.
+    destruct rg, b; eexists; (split; [reflexivity|]); cbn [explains].
+    - apply own_rows.
+    - apply own_rows_dec.
+    - reflexivity.
+    - eapply dec_bin_shots; eauto.
+  Qed.
+
+  Lemma step_samples_inv m al past r (b rg : bool) d :
+    rel m al -> INV al past -> r < length al ->
+    oracle_ok cfg m (Samples r b rg d) = true ->
+    exists al' m' x, step_samples cfg m r b rg d = (m', x) /\ rel m' al' /\
+                     INV al' (past ++ [(Samples r b rg d, x)]) /\ length al' = length al.
+  Proof.
+    intros Hrel HINV Hr Hor.
+    destruct (nth_error al r) as [a|] eqn:Ha; [|apply nth_error_None in Ha; lia].
+    pose proof HINV as [Hwf [Hitems [Hf1 Hf2]]].
+    assert (Hwa : wfe a) by (rewrite Forall_forall in Hwf; apply Hwf; eapply nth_error_In; eauto).
+    destruct (e_smp a) eqn:Hs.
+    - destruct (samples_tail al r a b rg m d Hrel Ha Hs Hwa) as [x [Hx Hex]].
+      exists al, m, x. split; [exact Hx|]. split; [exact Hrel|]. split; [|reflexivity].
+      apply INV_snoc; [exact HINV | | |].
+      + unfold item_ok. cbn [fst snd target]. now rewrite Ha.
+      + intros r' a' Ht Ha' Hs'. cbn [target] in Ht. inversion Ht; subst r'. congruence.
+      + intros r' a' Ht Ha' Hs'. cbn [target] in Ht. inversion Ht; subst r'. congruence.
+    - (* first materialisation *)
+      set (a' := mkent (e_w a) (e_ns a) true d (e_frq a)).
+      unfold oracle_ok in Hor. rewrite (rel_nth m al r a Hrel Ha) in Hor.
+      unfold conc_ent in Hor. cbn [r_samples r_freqs r_probs r_nshots] in Hor. rewrite Hs in Hor.
+      destruct Hwa as [Hfrq Hact].
+      assert (Hcase : wfe a' /\ ((forall v, cnt (e_sh a) v = cnt d v) \/ e_frq a = None)).
+      { destruct (e_frq a) as [F|] eqn:Hf.
+        - pose proof (forallb_count_all _ _ Hor) as Hp. destruct Hfrq as [HndF HlF].
+          assert (Hperm : forall v, cnt (e_sh a) v = cnt d v).
           { intros v. rewrite Hp, (cnt_expand F v HndF). symmetry. apply HlF. }
-          split.
-          + constructor; cbn [st' a_gfl a_sh a_frq a_smp a_execs].
-            * exact Hlen.
-            * eapply gf_ok_perm; eauto.
-            * eapply counts_ok_perm; eauto. split; assumption.
-            * discriminate.
-            * intros _. destruct (Hact (or_intror eq_refl)) as [e0 [He0 [Hl0 HF0]]].
-              exists e0. split; [exact He0|]. split.
-              -- rewrite <- Hl0. symmetry. now apply length_cnt_perm.
-              -- eapply Forall_cnt_perm; eauto.
-          + specialize (Hns eq_refl). rewrite Forall_forall in *. intros p Hin.
-            apply (item_ok_mono st st'); [auto | | auto].
-            right. left. split; [exact Hperm | auto].
-        - (* fresh draw from the probabilities *)
-          apply andb_true_iff in Hor. destruct Hor as [Hl Hsup]. apply Nat.eqb_eq in Hl.
-          split.
-          + constructor; cbn [st' a_gfl a_sh a_frq a_smp a_execs].
-            * exact Hlen.
-            * apply gf_ok_none; [exact Hlen|]. specialize (Hnosamp Hs). exact Hnosamp.
-            * exact I.
-            * discriminate.
-            * intros _. exists e. split; [exact He|]. now apply support_shots.
-          + specialize (Hnn eq_refl eq_refl). rewrite Forall_forall in *. intros p Hin.
-            apply (item_ok_mono st st'); [auto | | auto]. right. right. auto. }
-      destruct Hwf' as [Hwf' Hitems'].
-      destruct (samples_output st' e b rg d Hwf' Hs' He') as [x [Hx Hex]].
-      exists st', x. split.
-      + rewrite (step_samples_mat _ _ _ _ _ _ d Hmat (mat_idem st' e d Hs' He')). exact Hx.
-      + split; [|reflexivity]. split; [exact Hwf'|]. split; [|split; intros; discriminate].
-        apply Forall_app_one; [exact Hitems'|].
-        unfold item_ok. cbn [fst snd target]. rewrite He', Nat.eqb_refl. exact Hex.
+          split; [|now left]. constructor; cbn [a' e_frq e_sh e_smp e_w e_ns].
+          + eapply counts_ok_perm; eauto. split; assumption.
+          + intros _. destruct (Hact (or_intror eq_refl)) as [Hl0 HF0]. split.
+            * rewrite <- Hl0. symmetry. now apply length_cnt_perm.
+            * eapply Forall_cnt_perm; eauto.
+        - apply andb_true_iff in Hor. destruct Hor as [Hl Hsup]. apply Nat.eqb_eq in Hl.
+          split; [|now right]. constructor; cbn [a' e_frq e_sh e_smp e_w e_ns].
+          + exact I.
+          + intros _. now apply support_shots. }
+      destruct Hcase as [Hwa' Hcase].
+      set (al' := update_nth r a' al).
+      set (m1 := mkm (map (fun rg0 => mkg (Some (map (take_cols (reg_cols Q (fst rg0))) (map (to_bin k) d))) (gf (snd rg0)))
+                          (combine regs (m_gates m)))
+                     (update_nth r (conc_ent a') (m_results m)) (m_final m)).
+      assert (Hmat : materialise cfg m r d = Some m1).
+      { unfold materialise. rewrite (rel_nth m al r a Hrel Ha). unfold conc_ent at 1. cbn [r_samples]. rewrite Hs.
+        unfold m1.
+        assert (E : set_samples (conc_ent a) (map (to_bin k) d) = conc_ent a') by reflexivity.
+        now rewrite E. }
+      assert (Hrel1 : rel m1 al') by (apply rel_update; exact Hrel).
+      assert (Ha' : nth_error al' r = Some a') by (apply nth_error_update_eq; exact Hr).
+      assert (HINV1 : INV al' past).
+      { apply (INV_update al past r a a' HINV Ha eq_refl Hwa').
+        - destruct Hcase as [Hp|Hf]; [right; left; split; [exact Hp | exact Hs] | right; right; split; [exact Hs | exact Hf]].
+        - discriminate.
+        - discriminate. }
+      destruct (samples_tail al' r a' b rg m1 d Hrel1 Ha' eq_refl Hwa') as [x [Hx Hex]].
+      exists al', m1, x. split.
+      + unfold step_samples. rewrite Hmat. unfold step_samples in Hx.
+        assert (Hm1 : materialise cfg m1 r d = Some m1).
+        { unfold materialise. rewrite (rel_nth m1 al' r a' Hrel1 Ha'). reflexivity. }
+        rewrite Hm1 in Hx. exact Hx.
+      + split; [exact Hrel1|]. split; [|apply update_nth_length].
+        apply INV_snoc; [exact HINV1 | | |].
+        * unfold item_ok. cbn [fst snd target]. now rewrite Ha'.
+        * intros r' b' Ht Hb' Hs'. cbn [target] in Ht. inversion Ht; subst r'. rewrite Ha' in Hb'. inversion Hb'; subst b'. discriminate.
+        * intros r' b' Ht Hb' Hs'. cbn [target] in Ht. inversion Ht; subst r'. rewrite Ha' in Hb'. inversion Hb'; subst b'. discriminate.
   Qed.
 
-  (* ---------- frequencies(): the two halves of step_freqs *)
-  Definition fill (m : machine) (r : nat) (R : result) (fdraw : counter) : option machine :=
-    match r_freqs R with
-    | Some _ => Some m
-    | None =>
-      if g0_has_samples m || (match r_samples R with Some _ => true | None => false end) then
-        match materialise cfg m r [] with
-        | None => None
-        | Some m' =>
-          match nth_error (m_results m') r with
-          | Some R' =>
-            match r_samples R' with
-            | Some sm => Some (mkm (m_gates m')
-                                  (update_nth r (set_freqs R' (calc_freq (map to_dec sm))) (m_results m'))
-                                  (m_final m'))
-            | None => None
-            end
-          | None => None
-          end
-        end
-      else
-        Some (mkm (map (fun rg => mkg (gs (snd rg)) (Some (reg_freq k (reg_cols Q (fst rg)) fdraw)))
-                       (combine regs (m_gates m)))
-                  (update_nth r (set_freqs R fdraw) (m_results m)) (m_final m))
-    end.
-
-  Definition ftail (m1 : machine) (r : nat) (binary registers : bool) : machine * out :=
-    match nth_error (m_results m1) r with
-    | Some R1 =>
-      match r_freqs R1 with
-      | Some F =>
-        if registers then
-          match opt_all (map gate_freq (m_gates m1)) with
-          | Some gl =>
-              let m2 := mkm (map fst gl) (m_results m1) (m_final m1) in
-              (m2, if binary
-                   then ORegFreqBin (map (fun rf => fbin (length (fst rf)) (snd rf))
-                                         (combine regs (map snd gl)))
-                   else ORegFreqDec (map snd gl))
-          | None => (m1, OErr 2)
-          end
-        else (m1, if binary then OFreqBin (fbin k F) else OFreqDec F)
-      | None => (m1, OErr 3)
-      end
-    | None => (m1, OErr 4)
-    end.
-
-  Lemma step_freqs_unfold m r b rg fd :
-    step_freqs cfg m r b rg fd =
-    match nth_error (m_results m) r with
-    | None => (m, OErr 4)
-    | Some R => match fill m r R fd with None => (m, OErr 1) | Some m1 => ftail m1 r b rg end
-    end.
-  Proof. reflexivity. Qed.
-
-  Lemma freqs_output st e (b rg : bool) F :
-    wf st -> a_frq st = Some F -> nth_error (a_execs st) r0 = Some e ->
-    exists st' x, ftail (conc st) r0 b rg = (conc st', x) /\ wf st' /\
-                  a_sh st' = a_sh st /\ a_execs st' = a_execs st /\ a_smp st' = a_smp st /\
-                  a_frq st' = a_frq st /\
-                  forall fd, explains cfg (fst e) (a_sh st) (Freqs r0 b rg fd) x.
+  (* ---------- frequencies() *)
+  Lemma freqs_tail al r a (b rg : bool) m1 F :
+    rel m1 al -> nth_error al r = Some a -> e_frq a = Some F -> wfe a ->
+    exists x,
+      (match nth_error (m_results m1) r with
+       | Some R1 =>
+         match r_freqs R1 with
+         | Some F0 =>
+           if rg then
+             let l := map (fun reg => reg_freq k (own_cols cfg reg) F0) regs in
+             (m1, if b then ORegFreqBin (map (fun rf => fbin (length (fst rf)) (snd rf)) (combine regs l))
+                  else ORegFreqDec l)
+           else (m1, if b then OFreqBin (fbin k F0) else OFreqDec F0)
+         | None => (m1, OErr 3)
+         end
+       | None => (m1, OErr 4)
+       end) = (m1, x) /\ forall fd, explains cfg (e_w a) (e_sh a) (Freqs r b rg fd) x.
   Proof.
-    intros Hwf Hf He. pose proof Hwf as [Hlen Hgf Hfrq Hnosamp Hact].
-    unfold ftail. rewrite (result_r0 st e He), mkres_freqs, Hf. rewrite Hf in Hfrq.
-    destruct rg.
-    - set (fl := fl_of regs (a_gfl st) (a_sh st)).
-      assert (Hfl : Forall2 (fun reg f => counts_ok f (map (spec_reg_dec cfg reg) (a_sh st))) regs fl).
-      { apply fl_ok; auto. }
-      assert (Hfll : length fl = length regs) by (apply fl_of_length; exact Hlen).
-      cbn [conc m_gates m_results m_final].
-      rewrite gate_freq_build; [|exact Hlen|].
-      2:{ destruct (a_smp st) eqn:Hs; [now left | right].
-          specialize (Hnosamp eq_refl). rewrite Hf in Hnosamp. exact Hnosamp. }
-      fold fl.
-      rewrite map_fst_combine by (rewrite build_length; rewrite ?map_length; lia).
-      rewrite map_snd_combine by (rewrite build_length; rewrite ?map_length; lia).
-      exists (mka (a_execs st) (a_smp st) (a_sh st) (a_frq st) (map Some fl) (a_fin st)).
-      eexists. split; [reflexivity|].
-      split; [|split; [reflexivity|split; [reflexivity|split; [reflexivity|split; [cbn [a_frq]; exact Hf|]]]]].
-      + constructor; cbn [a_gfl a_sh a_frq a_smp a_execs].
-        * now rewrite map_length.
-        * now apply fl_ok_some.
-        * now rewrite Hf.
-        * intros _. rewrite Hf. clear. induction fl; cbn [map]; constructor; auto.
-        * exact Hact.
-      + intros fd. destruct b; cbn [explains]; [now apply fl_bin_ok | exact Hfl].
-    - exists st. eexists. split; [reflexivity|].
-      split; [exact Hwf|split; [reflexivity|split; [reflexivity|split; [reflexivity|split; [exact Hf|]]]]].
-      intros fd. destruct b; cbn [explains]; [exists F; split; [reflexivity | exact Hfrq] | exact Hfrq].
+    intros Hrel Ha Hf [Hfrq _]. rewrite Hf in Hfrq.
+    rewrite (rel_nth m1 al r a Hrel Ha). unfold conc_ent. cbn [r_freqs]. rewrite Hf.
+    destruct rg, b; eexists; (split; [reflexivity|]); intros fd; cbn [explains].
+    - apply fl_bin_ok. now apply own_freqs_ok.
+    - now apply own_freqs_ok.
+    - exists F. split; [reflexivity | exact Hfrq].
+    - exact Hfrq.
   Qed.
 
-  Lemma expand_keys f s : In s (expand f) -> exists c, In (s, c) f.
+  Lemma step_freqs_inv m al past r (b rg : bool) fd :
+    rel m al -> INV al past -> r < length al ->
+    oracle_ok cfg m (Freqs r b rg fd) = true ->
+    exists al' m' x, step_freqs cfg m r b rg fd = (m', x) /\ rel m' al' /\
+                     INV al' (past ++ [(Freqs r b rg fd, x)]) /\ length al' = length al.
   Proof.
-    induction f as [|[v c] f IH]; cbn [expand flat_map fst snd]; [intros []|].
-    rewrite in_app_iff. intros [H|H].
-    - apply repeat_spec in H. subst. exists c. now left.
-    - destruct (IH H) as [c' Hc]. exists c'. now right.
-  Qed.
-
-  Lemma fill_inv st past e fd (b rg : bool) :
-    INV st past -> nth_error (a_execs st) r0 = Some e ->
-    oracle_ok cfg (conc st) (Freqs r0 b rg fd) = true ->
-    exists st1 F, fill (conc st) r0 (mkres (smp_of st) (a_frq st) r0 e) fd = Some (conc st1) /\
-                  INV st1 past /\ a_frq st1 = Some F /\ a_execs st1 = a_execs st.
-  Proof.
-    intros [Hwf [Hitems [Hns Hnn]]] He Hor.
-    pose proof Hwf as [Hlen Hgf Hfrq Hnosamp Hact].
-    unfold fill. rewrite mkres_freqs, mkres_samples.
-    destruct (a_frq st) as [F|] eqn:Hf.
-    - exists st, F. split; [reflexivity|]. split; [|split; [exact Hf | reflexivity]].
-      split; [exact Hwf|]. split; [exact Hitems|]. split; [exact Hns|]. intros _ H. rewrite Hf in H. discriminate.
-    - rewrite g0_conc by exact Hlen. unfold smp_of at 1. destruct (a_smp st) eqn:Hs.
-      + (* frequencies computed from the existing samples *)
-        cbn [orb]. rewrite (mat_idem st e [] Hs He), (result_r0 st e He), mkres_samples.
-        unfold smp_of. rewrite Hs, Hf.
-        destruct (Hact (or_introl eq_refl)) as [e' [He' Hshots]]. rewrite He in He'. inversion He'; subst e'.
-        rewrite (dec_bin_shots _ _ _ Hshots).
-        set (st1 := mka (a_execs st) true (a_sh st) (Some (calc_freq (a_sh st))) (a_gfl st) (a_fin st)).
-        exists st1, (calc_freq (a_sh st)). split.
-        * cbn [conc m_gates m_results m_final]. rewrite Hs. rewrite set_freqs_mkres.
-          unfold smp_of. rewrite Hs, Hf.
-          rewrite (mk_results_update _ _ (Some (map (to_bin k) (a_sh st))) (Some (calc_freq (a_sh st))) _ 0 r0 e)
-            by (reflexivity || assumption).
-          reflexivity.
-        * split; [|split; reflexivity]. split; [|split; [|split; intros; discriminate]].
-          -- constructor; cbn [st1 a_gfl a_sh a_frq a_smp a_execs].
-             ++ exact Hlen.
-             ++ exact Hgf.
-             ++ split; [apply nodup_calc_freq | intros v; apply lookup_calc_freq].
-             ++ discriminate.
-             ++ intros _. exists e. split; assumption.
-          -- rewrite Forall_forall in *. intros p Hin. apply (item_ok_mono st st1); auto.
-      + (* frequencies drawn by sample_frequencies and registered on every gate *)
-        cbn [orb]. unfold smp_of. rewrite Hs.
-        unfold oracle_ok in Hor. rewrite (result_r0 st e He), mkres_freqs, Hf in Hor.
-        rewrite g0_conc in Hor by exact Hlen. rewrite Hs, mkres_samples in Hor.
-        unfold smp_of in Hor. rewrite Hs in Hor. cbn [orb] in Hor.
-        rewrite mkres_probs, mkres_nshots in Hor.
-        apply andb_true_iff in Hor. destruct Hor as [Hor Hsup].
-        apply andb_true_iff in Hor. destruct Hor as [Hnd Htot].
-        apply nodupb_NoDup in Hnd. apply Nat.eqb_eq in Htot.
-        set (gfl1 := map (fun reg => Some (reg_freq k (reg_cols Q reg) fd)) regs).
-        set (st1 := mka (a_execs st) false (expand fd) (Some fd) gfl1 (a_fin st)).
-        exists st1, fd. split.
-        * cbn [conc m_gates m_results m_final]. rewrite Hs.
-          rewrite (freq_gates _ _ (expand fd)) by exact Hlen.
-          rewrite set_freqs_mkres. unfold smp_of. rewrite Hs, Hf. cbn [st1 a_smp].
-          rewrite (mk_results_update _ _ None (Some fd) _ 0 r0 e) by (reflexivity || assumption).
-          reflexivity.
-        * split; [|split; reflexivity].
-          specialize (Hnn eq_refl eq_refl).
-          split; [|split; [|split; [|intros _ H; discriminate]]].
-          -- constructor; cbn [st1 a_gfl a_sh a_frq a_smp a_execs].
-             ++ unfold gfl1. now rewrite map_length.
-             ++ apply reg_freq_ok. auto.
-             ++ split; [exact Hnd | intros v; symmetry; now apply cnt_expand].
-             ++ intros _. unfold gfl1. clear. induction regs; cbn [map]; constructor; auto.
-             ++ intros _. exists e. split; [exact He|]. split.
-                ** now rewrite length_expand.
-                ** apply Forall_forall. intros s Hin. apply expand_keys in Hin. destruct Hin as [c Hc].
-                   rewrite forallb_forall in Hsup. specialize (Hsup _ Hc). cbn [fst snd] in Hsup.
-                   apply andb_true_iff in Hsup. destruct Hsup as [Hsup _].
-                   apply in_support_spec in Hsup. now rewrite <- probs_born.
-          -- rewrite Forall_forall in *. intros p Hin. apply (item_ok_mono st st1); auto.
-          -- intros _. rewrite Forall_forall in *. intros p Hin. specialize (Hnn p Hin).
-             unfold no_samples_item. destruct (fst p); cbn [needs_shots] in Hnn; try discriminate; exact I.
-  Qed.
-
-  Lemma step_freqs_inv st past (b rg : bool) fd :
-    INV st past -> r0 < length (a_execs st) ->
-    oracle_ok cfg (conc st) (Freqs r0 b rg fd) = true ->
-    exists st' x, step_freqs cfg (conc st) r0 b rg fd = (conc st', x) /\
-                  INV st' (past ++ [(Freqs r0 b rg fd, x)]) /\ a_execs st' = a_execs st.
-  Proof.
-    intros HINV Hr Hor.
-    destruct (nth_error (a_execs st) r0) as [e|] eqn:He; [|apply nth_error_None in He; lia].
-    destruct (fill_inv st past e fd b rg HINV He Hor) as [st1 [F [Hfill [[Hwf1 [Hit1 [Hns1 Hnn1]]] [Hf1 Hex1]]]]].
-    assert (He1 : nth_error (a_execs st1) r0 = Some e) by (rewrite Hex1; exact He).
-    destruct (freqs_output st1 e b rg F Hwf1 Hf1 He1) as [st' [x [Ht [Hwf' [Hsh [Hex' [Hsm [Hfr Hexpl]]]]]]]].
-    exists st', x. split.
-    - rewrite step_freqs_unfold, (result_r0 st e He), Hfill. exact Ht.
-    - split; [|congruence]. split; [exact Hwf'|]. split; [|split].
-      + apply Forall_app_one.
-        * rewrite Forall_forall in *. intros p Hin. apply (item_ok_mono st1 st'); auto.
-          intros r e0. now rewrite Hex'.
-        * unfold item_ok. cbn [fst snd target]. rewrite Hex', He1, Nat.eqb_refl, Hsh. apply Hexpl.
-      + rewrite Hsm. intros H. apply Forall_app_one; [auto | exact I].
-      + rewrite Hsm, Hfr, Hf1. intros _ H. discriminate.
+    intros Hrel HINV Hr Hor.
+    destruct (nth_error al r) as [a|] eqn:Ha; [|apply nth_error_None in Ha; lia].
+    pose proof HINV as [Hwf [Hitems [Hf1 Hf2]]].
+    assert (Hwa : wfe a) by (rewrite Forall_forall in Hwf; apply Hwf; eapply nth_error_In; eauto).
+    unfold step_freqs. rewrite (rel_nth m al r a Hrel Ha). cbv zeta.
+    change (r_freqs (conc_ent a)) with (e_frq a).
+    change (r_samples (conc_ent a)) with (if e_smp a then Some (map (to_bin k) (e_sh a)) else None).
+    (* the filled state *)
+    assert (Hfill : exists a1 F gates1,
+              (match e_frq a with
+               | Some _ => m
+               | None =>
+                 match (if e_smp a then Some (map (to_bin k) (e_sh a)) else None) with
+                 | Some sm => mkm (m_gates m) (update_nth r (set_freqs (conc_ent a) (calc_freq (map to_dec sm))) (m_results m)) (m_final m)
+                 | None => mkm (map (fun rg0 => mkg (gs (snd rg0)) (Some (reg_freq k (reg_cols Q (fst rg0)) fd))) (combine regs (m_gates m)))
+                               (update_nth r (set_freqs (conc_ent a) fd) (m_results m)) (m_final m)
+                 end
+               end) = mkm gates1 (update_nth r (conc_ent a1) (m_results m)) (m_final m) /\
+              e_frq a1 = Some F /\ INV (update_nth r a1 al) past /\ wfe a1).
+    { destruct (e_frq a) as [F|] eqn:Hf.
+      - exists a, F, (m_gates m). split.
+        + rewrite (update_nth_same (m_results m) r (conc_ent a)) by (now apply (rel_nth m al)). now destruct m.
+        + split; [exact Hf|]. split; [|exact Hwa]. now rewrite (update_nth_same al r a Ha).
+      - destruct (e_smp a) eqn:Hs.
+        + destruct Hwa as [_ Hact]. pose proof (Hact (or_introl Hs)) as Hshots.
+          set (a1 := mkent (e_w a) (e_ns a) true (e_sh a) (Some (calc_freq (e_sh a)))).
+          assert (Hwa1 : wfe a1).
+          { constructor; cbn [a1 e_frq e_sh e_smp e_w e_ns]; [|auto].
+            split; [apply nodup_calc_freq | intros v; apply lookup_calc_freq]. }
+          exists a1, (calc_freq (e_sh a)), (m_gates m). split; [|split; [reflexivity|split; [|exact Hwa1]]].
+          * rewrite (dec_bin_shots _ _ _ Hshots).
+            assert (E : set_freqs (conc_ent a) (calc_freq (e_sh a)) = conc_ent a1) by (unfold set_freqs, conc_ent, a1; cbn; now rewrite Hs).
+            now rewrite E.
+          * apply (INV_update al past r a a1 HINV Ha eq_refl Hwa1); [now left | discriminate | discriminate].
+        + unfold oracle_ok in Hor. rewrite (rel_nth m al r a Hrel Ha) in Hor.
+          unfold conc_ent in Hor. cbn [r_samples r_freqs r_probs r_nshots has_own_samples] in Hor.
+          rewrite Hf, Hs in Hor.
+          apply andb_true_iff in Hor. destruct Hor as [Hor Hsup].
+          apply andb_true_iff in Hor. destruct Hor as [Hnd Htot].
+          apply nodupb_NoDup in Hnd. apply Nat.eqb_eq in Htot.
+          set (a1 := mkent (e_w a) (e_ns a) false (expand fd) (Some fd)).
+          assert (Hwa1 : wfe a1).
+          { constructor; cbn [a1 e_frq e_sh e_smp e_w e_ns].
+            - split; [exact Hnd | intros v; symmetry; now apply cnt_expand].
+            - intros _. split; [now rewrite length_expand|].
+              apply Forall_forall. intros s Hin. apply expand_keys in Hin. destruct Hin as [c Hc].
+              rewrite forallb_forall in Hsup. specialize (Hsup _ Hc). cbn [fst snd] in Hsup.
+              apply andb_true_iff in Hsup. destruct Hsup as [Hsup _].
+              apply in_support_spec in Hsup. now rewrite <- probs_born. }
+          eexists a1, fd, _. split; [|split; [reflexivity|split; [|exact Hwa1]]].
+          * assert (E : set_freqs (conc_ent a) fd = conc_ent a1) by (unfold set_freqs, conc_ent, a1; cbn; now rewrite Hs).
+            now rewrite E.
+          * apply (INV_update al past r a a1 HINV Ha eq_refl Hwa1); [right; right; split; [exact Hs | exact Hf] | auto | discriminate]. }
+    destruct Hfill as [a1 [F [gates1 [Hm1 [Hf1' [HINV1 Hwa1]]]]]].
+    rewrite Hm1.
+    set (m1 := mkm gates1 (update_nth r (conc_ent a1) (m_results m)) (m_final m)).
+    set (al' := update_nth r a1 al).
+    assert (Hrel1 : rel m1 al') by (apply rel_update; exact Hrel).
+    assert (Ha1 : nth_error al' r = Some a1) by (apply nth_error_update_eq; exact Hr).
+    destruct (freqs_tail al' r a1 b rg m1 F Hrel1 Ha1 Hf1' Hwa1) as [x [Hx Hex]].
+    exists al', m1, x. split; [exact Hx|]. split; [exact Hrel1|]. split; [|apply update_nth_length].
+    apply INV_snoc; [exact HINV1 | | |].
+    - unfold item_ok. cbn [fst snd target]. rewrite Ha1. apply Hex.
+    - intros; exact I.
+    - intros r' b' Ht Hb' Hs' Hfb. cbn [target] in Ht. inversion Ht; subst r'. rewrite Ha1 in Hb'. inversion Hb'; subst b'. congruence.
   Qed.
 
   (* ---------- one step *)
-  Lemma step_inv st past o :
-    INV st past -> op_wf cfg (length (a_execs st)) o = true ->
-    oracle_ok cfg (conc st) o = true -> reader_ok o = true ->
-    exists st' x, step cfg (conc st) o = (conc st', x) /\ INV st' (past ++ [(o, x)]) /\
-      length (a_execs st') = (match o with Exec _ _ => S (length (a_execs st)) | _ => length (a_execs st) end) /\
-      (forall r e, nth_error (a_execs st) r = Some e -> nth_error (a_execs st') r = Some e).
+  Lemma step_inv m al past o :
+    rel m al -> INV al past -> op_wf cfg (length al) o = true -> oracle_ok cfg m o = true ->
+    exists al' m' x, step cfg m o = (m', x) /\ rel m' al' /\ INV al' (past ++ [(o, x)]) /\
+      length al' = (match o with Exec _ _ => S (length al) | _ => length al end).
   Proof.
-    intros HINV Hop Hor Hrd. destruct o as [w ns|r b rg d|r b rg fd|r qs|].
+    intros Hrel HINV Hop Hor. destruct o as [w ns|r b rg d|r b rg fd|r qs|].
     - (* Exec *)
-      destruct HINV as [Hwf [Hitems [Hns Hnn]]]. pose proof Hwf as [Hlen Hgf Hfrq Hnosamp Hact].
-      set (st' := mka (a_execs st ++ [(w, ns)]) (a_smp st) (a_sh st) (a_frq st) (a_gfl st) (Some (length (a_execs st)))).
-      exists st', ODone. split; [|split; [|split]].
-      + unfold st', conc. cbn [step m_gates m_results m_final a_execs a_smp a_sh a_frq a_gfl a_fin].
-        rewrite mk_results_length, mk_results_app. cbn [Nat.add].
-        assert (E : mkres (smp_of st) (a_frq st) (length (a_execs st)) (w, ns) = mkr w ns (calc_probs n Q w) None None).
-        { unfold mkres. cbn [fst snd]. destruct (length (a_execs st) =? r0) eqn:E; [|reflexivity].
-          apply Nat.eqb_eq in E.
-          destruct (a_smp st) eqn:Hs.
-          - destruct (Hact (or_introl eq_refl)) as [e [He _]].
-            assert (r0 < length (a_execs st)) by (apply nth_error_Some; congruence). lia.
-          - destruct (a_frq st) eqn:Hf.
-            + destruct (Hact (or_intror eq_refl)) as [e [He _]].
-              assert (r0 < length (a_execs st)) by (apply nth_error_Some; congruence). lia.
-            + unfold smp_of. rewrite Hs. reflexivity. }
-        change (smp_of {| a_execs := a_execs st ++ [(w, ns)]; a_smp := a_smp st; a_sh := a_sh st;
-                          a_frq := a_frq st; a_gfl := a_gfl st; a_fin := Some (length (a_execs st)) |})
-          with (smp_of st).
-        rewrite E. reflexivity.
-      + split; [|split; [|split]].
-        * constructor; cbn [st' a_gfl a_sh a_frq a_smp a_execs]; try assumption.
-          intros H. destruct (Hact H) as [e [He Hs]]. exists e. split; [|exact Hs].
-          now apply nth_error_app_some.
-        * apply Forall_app_one; [|exact I].
-          rewrite Forall_forall in *. intros p Hin. apply (item_ok_mono st st'); auto.
-          intros r e He. now apply nth_error_app_some.
-        * intros H. apply Forall_app_one; [auto | exact I].
-        * intros H1 H2. apply Forall_app_one; [auto | reflexivity].
-      + cbn [st' a_execs]. rewrite app_length. cbn [length]. lia.
-      + intros r e He. now apply nth_error_app_some.
-    - (* Samples *)
-      cbn [reader_ok] in Hrd. apply Nat.eqb_eq in Hrd. subst r.
-      cbn [op_wf] in Hop. apply Nat.ltb_lt in Hop.
-      destruct (step_samples_inv st past b rg d HINV Hop Hor) as [st' [x [H1 [H2 H3]]]].
-      exists st', x. cbn [step]. split; [exact H1|]. split; [exact H2|]. rewrite H3. split; auto.
-    - (* Freqs *)
-      cbn [reader_ok] in Hrd. apply Nat.eqb_eq in Hrd. subst r.
-      cbn [op_wf] in Hop. apply Nat.ltb_lt in Hop.
-      destruct (step_freqs_inv st past b rg fd HINV Hop Hor) as [st' [x [H1 [H2 H3]]]].
-      exists st', x. cbn [step]. split; [exact H1|]. split; [exact H2|]. rewrite H3. split; auto.
+      set (a := mkent w ns false [] None).
+      exists (al ++ [a]), (mkm (m_gates m) (m_results m ++ [conc_ent a]) (Some (length (m_results m)))), ODone.
+      split; [reflexivity|]. split; [|split].
+      + unfold rel in *. cbn [m_results]. now rewrite Hrel, map_app.
+      + destruct HINV as [Hwf [Hit [Hf1 Hf2]]]. split; [|split; [|split]].
+        * apply Forall_app_one; [exact Hwf|]. constructor; cbn [a e_frq e_smp]; [exact I | intros [H|H]; discriminate].
+        * apply Forall_app_one; [|exact I]. rewrite Forall_forall in *. intros p Hp. specialize (Hit p Hp).
+          unfold item_ok in *. destruct (target (fst p)) as [r|]; [|exact I].
+          destruct (nth_error al r) as [e|] eqn:E; [|contradiction]. now rewrite (nth_error_app_some al [a] r e E).
+        * intros r e He Hs. apply Forall_app_one; [|intros H; discriminate H].
+          destruct (Nat.lt_ge_cases r (length al)) as [Hlt|Hge].
+          -- rewrite nth_error_app1 in He by exact Hlt. now apply (Hf1 r e).
+          -- rewrite Forall_forall in *. intros p Hp Hon. exfalso. specialize (Hit p Hp). unfold item_ok, on in *.
+             rewrite Hon in Hit. destruct (nth_error al r) eqn:E; [|exact Hit]. apply nth_error_None in Hge. congruence.
+        * intros r e He Hs Hf. apply Forall_app_one; [|intros H; discriminate H].
+          destruct (Nat.lt_ge_cases r (length al)) as [Hlt|Hge].
+          -- rewrite nth_error_app1 in He by exact Hlt. now apply (Hf2 r e).
+          -- rewrite Forall_forall in *. intros p Hp Hon. exfalso. specialize (Hit p Hp). unfold item_ok, on in *.
+             rewrite Hon in Hit. destruct (nth_error al r) eqn:E; [|exact Hit]. apply nth_error_None in Hge. congruence.
+      + rewrite app_length. cbn [length]. lia.
+    - cbn [op_wf] in Hop. apply Nat.ltb_lt in Hop.
+      destruct (step_samples_inv m al past r b rg d Hrel HINV Hop Hor) as [al' [m' [x [H1 [H2 [H3 H4]]]]]].
+      exists al', m', x. cbn [step]. auto.
+    - cbn [op_wf] in Hop. apply Nat.ltb_lt in Hop.
+      destruct (step_freqs_inv m al past r b rg fd Hrel HINV Hop Hor) as [al' [m' [x [H1 [H2 [H3 H4]]]]]].
+      exists al', m', x. cbn [step]. auto.
     - (* Probs *)
       cbn [op_wf] in Hop. apply andb_true_iff in Hop. destruct Hop as [Hop Hq].
-      apply andb_true_iff in Hop. destruct Hop as [Hr Hnd]. apply Nat.ltb_lt in Hr.
-      apply nodupb_NoDup in Hnd.
-      destruct (nth_error (a_execs st) r) as [e|] eqn:He; [|apply nth_error_None in He; lia].
-      exists st, (OProbs (calc_probs n qs (fst e))). split; [|split; [|split; auto]].
-      + cbn [step conc m_results]. rewrite mk_results_nth, He. reflexivity.
-      + destruct HINV as [Hwf [Hitems [Hns Hnn]]]. split; [exact Hwf|]. split; [|split].
-        * apply Forall_app_one; [exact Hitems|].
-          unfold item_ok. cbn [fst snd target]. rewrite He. cbn [explains].
-          apply probs_sv_correct; [exact Hnd|]. intros q Hin. rewrite forallb_forall in Hq.
-          apply Nat.ltb_lt. now apply Hq.
-        * intros H. apply Forall_app_one; [auto | exact I].
-        * intros H1 H2. apply Forall_app_one; [auto | reflexivity].
-    - (* Final *)
-      exists st, (OFinal (a_fin st)). split; [reflexivity|]. split; [|split; auto].
-      destruct HINV as [Hwf [Hitems [Hns Hnn]]]. split; [exact Hwf|]. split; [|split].
-      + apply Forall_app_one; [exact Hitems | exact I].
-      + intros H. apply Forall_app_one; [auto | exact I].
-      + intros H1 H2. apply Forall_app_one; [auto | reflexivity].
+      apply andb_true_iff in Hop. destruct Hop as [Hr Hnd]. apply Nat.ltb_lt in Hr. apply nodupb_NoDup in Hnd.
+      destruct (nth_error al r) as [a|] eqn:Ha; [|apply nth_error_None in Ha; lia].
+      exists al, m, (OProbs (calc_probs n qs (e_w a))). split; [|split; [exact Hrel|split; [|reflexivity]]].
+      + cbn [step]. now rewrite (rel_nth m al r a Hrel Ha).
+      + apply INV_snoc; [exact HINV | | intros; exact I | intros; reflexivity].
+        unfold item_ok. cbn [fst snd target]. rewrite Ha. cbn [explains].
+        apply probs_sv_correct; [exact Hnd|]. intros q Hin. rewrite forallb_forall in Hq.
+        apply Nat.ltb_lt. now apply Hq.
+    - exists al, m, (OFinal (m_final m)). split; [reflexivity|]. split; [exact Hrel|]. split; [|reflexivity].
+      apply INV_snoc; [exact HINV | exact I | intros r a Ht; discriminate Ht | intros r a Ht; discriminate Ht].
   Qed.
 
   (* ---------- whole histories *)
-  Lemma run_inv h : forall st past,
-    INV st past -> hist_wf cfg (length (a_execs st)) h = true ->
-    oracles_ok cfg (conc st) h = true -> single_reader r0 h = true ->
-    exists st' xs, run cfg (conc st) h = (xs, conc st') /\ INV st' (past ++ combine h xs) /\
-                   length xs = length h.
+  Lemma run_inv h : forall m al past,
+    rel m al -> INV al past -> hist_wf cfg (length al) h = true -> oracles_ok cfg m h = true ->
+    exists al' xs mf, run cfg m h = (xs, mf) /\ rel mf al' /\ INV al' (past ++ combine h xs) /\ length xs = length h.
   Proof.
-    induction h as [|o h IH]; intros st past HINV Hwf Hor Hsr.
-    - exists st, []. cbn [run combine]. rewrite app_nil_r. auto.
+    induction h as [|o h IH]; intros m al past Hrel HINV Hwf Hor.
+    - exists al, [], m. cbn [run combine]. rewrite app_nil_r. auto.
     - cbn [hist_wf] in Hwf. apply andb_true_iff in Hwf. destruct Hwf as [Hop Hwf].
       cbn [oracles_ok] in Hor. apply andb_true_iff in Hor. destruct Hor as [Ho Hor].
-      cbn [single_reader forallb] in Hsr. apply andb_true_iff in Hsr. destruct Hsr as [Hrd Hsr].
-      assert (Hrd' : reader_ok o = true) by (destruct o; exact Hrd).
-      destruct (step_inv st past o HINV Hop Ho Hrd') as [st1 [x [Hstep [HINV1 [Hlen1 _]]]]].
+      destruct (step_inv m al past o Hrel HINV Hop Ho) as [al1 [m1 [x [Hstep [Hrel1 [HINV1 Hlen1]]]]]].
       rewrite Hstep in Hor. cbn [fst] in Hor.
-      assert (Hwf1 : hist_wf cfg (length (a_execs st1)) h = true).
-      { rewrite Hlen1. destruct o; exact Hwf. }
-      destruct (IH st1 (past ++ [(o, x)]) HINV1 Hwf1 Hor Hsr) as [st' [xs [Hrun [HINV' Hl]]]].
-      exists st', (x :: xs). cbn [run]. rewrite Hstep, Hrun. split; [reflexivity|].
+      assert (Hwf1 : hist_wf cfg (length al1) h = true) by (rewrite Hlen1; destruct o; exact Hwf).
+      destruct (IH m1 al1 (past ++ [(o, x)]) Hrel1 HINV1 Hwf1 Hor) as [al' [xs [mf [Hrun [Hrel' [HINV' Hl]]]]]].
+      exists al', (x :: xs), mf. cbn [run]. rewrite Hstep, Hrun. split; [reflexivity|]. split; [exact Hrel'|].
       cbn [combine length]. rewrite <- app_assoc in HINV'. cbn [app] in HINV'. auto.
   Qed.
 
-  Definition st0 : ast := mka [] false [] None (map (fun _ => None) regs) None.
-
-  Lemma build_init : forall rs : list (list nat),
-    build rs false [] (map (fun _ => None) rs) = map (fun _ => mkg None None) rs.
-  Proof. induction rs as [|reg rs IH]; cbn [build map]; [reflexivity | now rewrite IH]. Qed.
-
-  Lemma conc_st0 : conc st0 = init cfg.
-  Proof. unfold conc, st0, init. cbn [a_smp a_sh a_gfl a_execs a_fin a_frq mk_results_from]. now rewrite build_init. Qed.
-
-  Lemma INV_st0 : INV st0 [].
+  Theorem all_histories_standalone h :
+    hist_wf cfg 0 h = true -> oracles_ok cfg (init cfg) h = true -> standalone cfg h.
   Proof.
-    split; [|split; [constructor | split; intros; constructor]].
-    constructor; cbn [st0 a_gfl a_sh a_frq a_smp a_execs].
-    - now rewrite map_length.
-    - apply gf_ok_none; [now rewrite map_length|]. clear. induction regs; cbn [map]; constructor; auto.
-    - exact I.
-    - intros _. clear. induction regs; cbn [map]; constructor; auto.
-    - intros [H|H]; discriminate.
-  Qed.
-
-  Lemma nth_error_combine {A B} (l : list A) : forall (l' : list B) i a b,
-    nth_error l i = Some a -> nth_error l' i = Some b -> In (a, b) (combine l l').
-  Proof.
-    induction l as [|x l IH]; intros [|y l'] [|i] a b Ha Hb; cbn [nth_error] in *; try discriminate.
-    - inversion Ha; inversion Hb; subst. now left.
-    - right. eapply IH; eauto.
-  Qed.
-
-  Theorem single_reader_standalone h :
-    hist_wf cfg 0 h = true -> oracles_ok cfg (init cfg) h = true -> single_reader r0 h = true ->
-    standalone cfg h.
-  Proof.
-    intros Hwf Hor Hsr. unfold standalone. rewrite <- conc_st0 in *.
-    destruct (run_inv h st0 [] INV_st0 Hwf Hor Hsr) as [st' [xs [Hrun [[Hwf' [Hitems [Hns Hnn]]] Hl]]]].
+    intros Hwf Hor. unfold standalone.
+    assert (Hrel0 : rel (init cfg) []) by reflexivity.
+    assert (HINV0 : INV [] []).
+    { split; [constructor|]. split; [constructor|]. split; intros; constructor. }
+    destruct (run_inv h (init cfg) [] [] Hrel0 HINV0 Hwf Hor) as [al [xs [mf [Hrun [Hrel [[Hwfe [Hitems [Hf1 Hf2]]] Hl]]]]]].
     rewrite Hrun. cbn [app] in *. intros r R HR.
-    cbn [conc m_results] in HR. rewrite mk_results_nth in HR. cbn [Nat.add] in HR.
-    destruct (nth_error (a_execs st') r) as [e|] eqn:He; [|discriminate].
-    cbn [option_map] in HR. inversion HR; subst R. clear HR.
-    exists (if r =? r0 then a_sh st' else []). split.
+    rewrite Hrel, nth_error_map in HR. destruct (nth_error al r) as [a|] eqn:Ha; [|discriminate].
+    cbn [option_map] in HR. inversion HR; subst R. clear HR. cbn [conc_ent r_w r_nshots].
+    exists (e_sh a). split.
     - intros [o [Hin [Ht Hn]]].
-      assert (r = r0) as ->.
-      { unfold single_reader in Hsr. rewrite forallb_forall in Hsr. specialize (Hsr o Hin).
-        destruct o; cbn [target needs_shots] in *; try discriminate; inversion Ht; subst;
-          now apply Nat.eqb_eq. }
-      rewrite Nat.eqb_refl.
-      assert (Hactive : a_smp st' = true \/ isSome (a_frq st') = true).
-      { destruct (a_smp st') eqn:Hs; [now left | right].
-        destruct (a_frq st') eqn:Hf; [reflexivity | exfalso].
-        specialize (Hnn eq_refl eq_refl). rewrite Forall_forall in Hnn.
-        apply (In_nth_error) in Hin. destruct Hin as [i Hi].
-        assert (i < length xs) by (rewrite Hl; apply nth_error_Some; congruence).
-        destruct (nth_error xs i) as [x|] eqn:Hx; [|apply nth_error_None in Hx; lia].
-        specialize (Hnn (o, x) (nth_error_combine _ _ _ _ _ Hi Hx)). cbn [fst] in Hnn. congruence. }
-      destruct Hwf' as [_ _ _ _ Hact]. destruct (Hact Hactive) as [e' [He' Hs]].
-      rewrite He in He'. inversion He'; subst e'. exact Hs.
+      assert (Hwa : wfe a) by (rewrite Forall_forall in Hwfe; apply Hwfe; eapply nth_error_In; eauto).
+      destruct Hwa as [_ Hact]. apply Hact.
+      destruct (e_smp a) eqn:Hs; [now left | right].
+      destruct (e_frq a) eqn:Hf; [reflexivity | exfalso].
+      specialize (Hf2 r a Ha Hs Hf). rewrite Forall_forall in Hf2.
+      apply In_nth_error in Hin. destruct Hin as [i Hi].
+      assert (i < length xs) by (rewrite Hl; apply nth_error_Some; congruence).
+      destruct (nth_error xs i) as [x|] eqn:Hx; [|apply nth_error_None in Hx; lia].
+      specialize (Hf2 (o, x) (nth_error_combine _ _ _ _ _ Hi Hx) Ht). cbn [fst] in Hf2. congruence.
     - intros i o x Hi Hx Ht. rewrite Forall_forall in Hitems.
       specialize (Hitems (o, x) (nth_error_combine _ _ _ _ _ Hi Hx)).
-      unfold item_ok in Hitems. cbn [fst snd] in Hitems. rewrite Ht, He in Hitems. exact Hitems.
+      unfold item_ok in Hitems. cbn [fst snd] in Hitems. now rewrite Ht, Ha in Hitems.
   Qed.
-End Single.
+End All.
